@@ -5,7 +5,13 @@ impl -> spec: `vh-ops relational layout` materialises the logical inputs of ever
 slices of larger poisoned buffers and broadcast (stride-0) views - all 4^k combinations for k <= 2
 tensor inputs, pairs plus random assignments beyond - and runs Operator::run on each; it also runs
 Transpose->{MatMul,Concat,Expand,Slice,Split} models optimised (Transpose fused into TransformInputs:
-the inner operator sees a permuted view) and unoptimised.  TLC validates the trace with
+the inner operator sees a permuted view) and unoptimised.  A "threshold" sub-family (catalogue3.rs, 65 entries)
+repeats the layout cross product for every operator that sits on a blocked / vectorised kernel (MatMul, Gemm,
+Einsum, MatMulInteger, MatMulNBits, Conv/ConvTranspose/ConvInteger, attention, LSTM/GRU, pooling, reductions,
+softmax, normalisations, elementwise SIMD kernels, Transpose/Concat/Expand/Gather copies, quantisation) with the
+kernel-facing dimensions drawn from {1,2,15,16,17,31,32,33,63,64,65,96,130} (N >= 64 favoured for the GEMM
+right-hand side so that several full column panels exist), the other dimensions tiny and integer-valued data, so
+that layout-dependent packing / tiling paths are crossed and judged bit-exactly against the contiguous run.  TLC validates the trace with
 Trace_Relational.tla (OpContracts.LayoutIndependent on shape, dtype and bits against the
 all-contiguous run)."""
 import collections
@@ -73,12 +79,15 @@ def run(ctx):
     if ctx.replay:
         batches = [("replay", ["--only-case", json.dumps(ctx.replay["record"]["case"])])]
     elif ctx.quick:
-        batches = [("q", ["--cases", 14, "--model-rounds", 30])]
+        batches = [("q", ["--cases", 14, "--model-rounds", 30]),
+                   # threshold sub-family: dims around / beyond the kernels' block and vector sizes
+                   ("thr", ["--only", "thr/", "--thr", "--cases", 5, "--model-rounds", 0])]
     else:
         # several moderately sized traces (the trace spec loads a whole trace into memory)
         batches = [("t%d" % i, ["--cases", 16, "--model-rounds", 60, "--exhaustive3"]) for i in range(12)]
         # tensors above the 32K-element chunk size of the parallel elementwise kernels
         batches.append(("big", ["--only", "big/", "--big", "--cases", 1]))
+        batches += [("thr%d" % i, ["--only", "thr/", "--thr", "--cases", 12, "--model-rounds", 0, "--exhaustive3"]) for i in range(4)]
     st = collections.Counter()
     ops, total, distinct, nontrivial, samples, bad = collections.OrderedDict(), 0, 0, 0, [], []
     for i, (tag, args) in enumerate(batches):
@@ -102,6 +111,10 @@ def run(ctx):
     ctx.cov["comparisons_against_successful_contiguous_run"] = st.get("compared", 0)
     ctx.cov["contiguous_run_failed_nothing_required"] = st.get("ref_failed", 0)
     ctx.cov["bits_differ_within_rounding_bound"] = st.get("rounding_only", 0)
+    thr = {k: o for k, o in ops.items() if k.startswith("thr/")}
+    ctx.cov["threshold_family_entries"] = len(thr)
+    ctx.cov["threshold_family_cases"] = sum(o["cases"] for o in thr.values())
+    ctx.cov["threshold_family_layout_runs"] = sum(o["runs"].get("layout_runs", 0) for o in thr.values())
     ctx.cov["operators_exercised"] = len(ops)
     ctx.cov["operators"] = ops
     ctx.add_samples(samples)
@@ -114,6 +127,7 @@ def run(ctx):
              "non-trivial = contiguous run succeeded with a non-empty output",
         assumptions=["the catalogue generators produce inputs on which Operator::run succeeds (measured: normal_ok per operator)",
                      "layouts are those expressible by rten-tensor views (non-negative strides); sequence inputs keep contiguous items",
+                     "threshold sub-family: block sizes are not read from the kernels; the dimension set brackets NR in {16,32}, MR <= 14 and 4/8/16-lane vectors",
                      "float data avoids NaN inputs (NaN payload propagation is not part of the property)",
                      "operators whose result is a rten-gemm sum of products are compared bit-exactly on integer-valued data and "
                      "within the rounding bound of OpContracts.tla otherwise (DESIGN 6.2)",
